@@ -56,6 +56,18 @@ class Builder:
 
     def nm(self, prefix, scope=None):
         nm = self._nm(prefix, scope)
+        if self.c.get("case_twin_rate") and nm is not None:
+            # siblings whose names differ only in letter case ("u1" and "U1"): distinct under the default policy
+            issued = self.__dict__.setdefault("case_issued", {}).setdefault(
+                (scope, prefix if prefix in ("p", "n", "u") else "def"), [])
+            if issued and self.r.random() < self.c["case_twin_rate"]:
+                tw = self.r.choice(issued).swapcase()
+                if tw not in issued:
+                    nm = tw
+            issued.append(nm)
+        if nm is not None and self.c.get("long_name_rate") and self.r.random() < self.c["long_name_rate"]:
+            # a name at the identifier length limit of EDIF (255): the unique part goes in front
+            nm = (nm + "_" + "L" * 300)[:self.r.choice([250, 253, 255, 256, 260])]
         if nm is not None and prefix in ("u", "n") and self.c.get("slash_rate") and self.r.random() < self.c["slash_rate"]:
             # the hierarchy separator inside a name (escaped Verilog identifiers and EDIF renames produce these)
             nm = self.r.choice(["/" + nm, nm + "/", nm + "/x", "a/" + nm])
